@@ -1080,8 +1080,21 @@ def x_enum_auto(it, args, kw):
     return _AUTO[0]
 
 
+def x_uuid4(it, args, kw):
+    from .contracts import fresh_opaque
+
+    return fresh_opaque(it, "UUID")
+
+
+def x_time(it, args, kw):
+    return SReal(z3.Real(it.path.fresh("time")))
+
+
 EXTERN = {
     "enum.auto": x_enum_auto,
+    "uuid.uuid4": x_uuid4,
+    "time.time": x_time,
+    "time.monotonic": x_time,
     "functools.partial": x_partial,
     "functools.wraps": lambda it, a, k: BuiltinIdentity(),
     "functools.lru_cache": x_identity_decorator,
